@@ -26,8 +26,47 @@ def int_like(t):
     return t.lstrip("&").replace("mut ", "").strip() in INTS
 
 
+def _norm_generic(t):
+    prev = None
+    while prev != t:
+        prev = t
+        t = re.sub(r"<[^<>]*>", "\x00", t)
+    return t.replace("\x00", "<>")
+
+
+class ApiClass:
+    def __init__(self):
+        import json, os
+
+        d = json.load(open(os.path.join(F.VERIF, "spec", "total_api.json")))
+        self.panic = [re.compile(x) for x in d["may_panic"]]
+        self.total = [re.compile(x) for x in d["total"]]
+
+    def classify(self, callee, resolved):
+        for t in (resolved, callee):
+            if not t:
+                continue
+            n = _norm_generic(t)
+            if any(r.search(n) or r.search(t) for r in self.panic):
+                return "may-panic"
+        for t in (resolved, callee):
+            if not t:
+                continue
+            n = _norm_generic(t)
+            if any(r.search(n) or r.search(t) for r in self.total):
+                return "total"
+        return "unclassified"
+
+
+API = None
+
+
 class Census:
     def __init__(self, m, facts):
+        global API
+        if API is None:
+            API = ApiClass()
+        local_crate = m.data.get("crate")
         self.sites = []  # dict(fn=e1key|None, mir=path, kind, what, macros, line, ord)
         counts = {}
         for p in sorted(m.bodies):
@@ -36,11 +75,17 @@ class Census:
             for c in sorted(b["calls"], key=lambda c: c["line"]):
                 t = c["resolved"] or c["callee"]
                 kind = None
-                if PANIC_API.search(t) or PANIC_API.search(c["callee"]):
-                    kind = "call"
-                elif (ARITH_TRAIT.search(t) or ARITH_TRAIT.search(c["callee"])) and any(int_like(a) for a in c["argtys"]):
+                if (ARITH_TRAIT.search(t) or ARITH_TRAIT.search(c["callee"])) and any(int_like(a) for a in c["argtys"]):
                     kind = "arith-call"
                     t = c["callee"]
+                elif c["crate"] and c["crate"] != local_crate and not (t in m.bodies):
+                    cls = API.classify(c["callee"], c["resolved"])
+                    if cls == "may-panic":
+                        kind = "call"
+                    elif cls == "unclassified" and fn is not None:
+                        kind = "unclassified"
+                elif PANIC_API.search(t) or PANIC_API.search(c["callee"]):
+                    kind = "call"
                 if kind:
                     what = re.sub(r"std::(option|result)::", "", t)
                     self._add(counts, fn, p, kind, what, c)
@@ -96,6 +141,7 @@ def run(c, facts, tier):
     c.floor("panic-capable sites in the census", total, 40)
     # ------------------------------------------------------------ progress / termination
     progress(c, facts, b, g)
+    linear_time(c, facts, b, g, an)
     termination(c, facts, m_on)
     # error rendering: Display impls come from thiserror templates; no hand-written Display for the error types
     for en in ("ParserError", "SyntaxError", "GrammarError", "CompileError"):
@@ -156,6 +202,24 @@ class Discharger:
             return self.overflow(s, f)
         if kind == "arith-call":
             return self.arith_call(s, f)
+        if kind == "unclassified":
+            return None, "census", "call of `%s`, an external API that spec/total_api.json classifies neither as total nor as may-panic: triage it (fail closed)" % what
+        if what.endswith("::with_capacity") or what.endswith("::reserve") or what.endswith("::reserve_exact"):
+            name = what.split("::")[-1]
+            calls = find_all(f.body, lambda n: (n.get("k") == "call" and n["f"]["k"] == "path" and n["f"]["segs"][-1] == name) or (n.get("k") == "mcall" and n["m"] == name))
+            def bounded(a):
+                a = rx.peel(a)
+                if a["k"] == "mcall" and a["m"] in ("len", "count", "capacity") and not a["args"]:
+                    return True
+                v = rx.int_const(a)
+                return v is not None and 0 <= v < 2**31
+            ok = bool(calls) and all(cl["args"] and bounded(cl["args"][-1]) for cl in calls)
+            return (True if ok else None), "const-arg", "%s panics only on capacity overflow; every requested capacity here is the length of an existing collection or a small literal: %s" % (name, [src(cl["args"][-1]) for cl in calls if cl["args"]])
+        if what.endswith("::from_str_radix"):
+            calls = find_all(f.body, lambda n: n.get("k") == "call" and n["f"]["k"] == "path" and n["f"]["segs"][-1] == "from_str_radix")
+            radices = [rx.int_const(cl["args"][1]) if len(cl["args"]) == 2 else None for cl in calls]
+            ok = bool(calls) and all(r is not None and 2 <= r <= 36 for r in radices)
+            return ok, "const-arg", "from_str_radix panics only for a radix outside 2..=36; radices used here: %s" % radices
         if kind == "assert" and what == "BoundsCheck":
             return None, "bounds", "indexing with a run-time index in %s" % fn
         if kind == "assert":
@@ -616,6 +680,72 @@ def progress(c, facts, b, g):
     c.ob("C03.termination", "crate", "no unbounded loops", not loops, "loop/while (or for over an unbounded iterator) in non-test code: %s" % loops if loops else "0 loop/while in non-test code; for-loops only over finite collections: %s; all other iteration is through winnow repetitions and iterator adaptors" % (finite or "none"))
 
 
+def linear_time(c, facts, b, g, an):
+    """Token-level choice points must be decidable on one token: if two alternatives of an `alt` can start with the same
+    token and reach a recursive non-terminal, a failing first alternative re-parses the operand and the work doubles per
+    nesting level (exponential time within the property's nesting bound)."""
+    from . import c01
+
+    entry = an.role("prec_entry")
+    mod = facts.fn(entry).module
+    tokens = facts.variants("Token")
+    ta = c01.TokAnalysis(g, tokens)
+    n = 0
+    for key, fn in facts.fns.items():
+        if fn.test or fn.module != mod or fn.impl is not None:
+            continue
+        try:
+            fb = b.fn_ir(key)
+        except F.AnchorMissing:
+            continue
+        alts = []
+        g.walk(fb, lambda x: alts.append(x) if x["t"] == "alt" else None, follow=False)
+        for a in alts:
+            n += 1
+            firsts = [ta.first(x) for x in a["alts"]]
+            clash = []
+            for i in range(len(firsts)):
+                for j in range(i + 1, len(firsts)):
+                    common = firsts[i] & firsts[j]
+                    if common:
+                        clash.append((peg.show(a["alts"][i])[:50], peg.show(a["alts"][j])[:50], sorted(common)))
+            c.ob(
+                "C03.linear-time",
+                key,
+                "choice point %s" % peg.show(a)[:60],
+                not clash,
+                "alternatives have pairwise disjoint FIRST token sets: one token decides, nothing is parsed twice" if not clash else "alternatives overlap on %s: when the first fails late, the shared operand (which may contain nested parentheses) is parsed again — exponential in the nesting depth" % clash,
+                witness="( ( ( ( ( ( ( ( ( ( ( ( ( ( ( ( ( ( ( ( ( ( -true ) ) ) ) ) ) ) ) ) ) ) ) ) ) ) ) ) ) ) ) ) )" if clash else None,
+                nontrivial=False,
+            )
+    c.floor("token-level choice points", n, 2)
+
+
+def structural_recursion(facts, fn, names):
+    """Every call of a function in `names` made inside `fn` has, as receiver or first argument, a variable bound by a
+    destructuring pattern (match arm / let / if-let) in `fn` — i.e. a strict sub-term of what `fn` was given."""
+    bound = set()
+    for mt in find_all(fn.body, lambda n: n.get("k") == "match"):
+        for arm in mt["arms"]:
+            for pcase in rx.pat_cases(arm["pat"]):
+                if pcase["k"] in ("tstruct", "struct", "tuple"):
+                    bound |= set(rx.pat_bindings(pcase))
+    for st in find_all(fn.body, lambda n: n.get("k") in ("let", "letexpr")):
+        if st["pat"]["k"] in ("tstruct", "struct", "or"):
+            bound |= set(rx.pat_bindings(st["pat"]))
+    calls = find_all(fn.body, lambda n: (n.get("k") == "mcall" and n["m"] in names) or (n.get("k") == "call" and n["f"]["k"] == "path" and n["f"]["segs"][-1] in names))
+    if not calls:
+        return False
+    for cl in calls:
+        tgt = cl["recv"] if cl["k"] == "mcall" else (cl["args"][0] if cl["args"] else None)
+        if tgt is None:
+            return False
+        base, chain = rx.method_chain(tgt)
+        if not (rx.var_name(base) in bound and all(mm in ("as_ref", "clone", "deref", "borrow", "as_deref") for mm, _, _ in chain)):
+            return False
+    return True
+
+
 def termination(c, facts, m):
     """Recursion cycles of the resolved call graph (Tarjan SCC over local bodies)."""
     graph = {}
@@ -679,6 +809,8 @@ def termination(c, facts, m):
             why = "code generation: structural recursion over the finite Rc tree (children only)"
         elif len(owners) == 1 and owners[0] in ("Expression::action", "Expression::complex_frames"):
             why = "structural recursion over the finite tree (C19 induction)"
+        elif all(o in facts.fns and structural_recursion(facts, facts.fns[o], {facts.fns[x].name for x in owners if x in facts.fns}) for o in owners):
+            why = "structural recursion: every recursive call is made on a value bound by destructuring the function's own argument (a strict sub-term of a finite tree)"
         elif all(re.search(r" as (std::)?(fmt::)?(Debug|Clone|PartialEq|cmp::PartialEq|clone::Clone|fmt::Debug)>", o) or "std::fmt::Debug" in o or "std::clone::Clone" in o or "std::cmp::PartialEq" in o for o in owners):
             why = "derived/structural Debug/Clone/PartialEq over the finite tree"
         c.ob("C03.termination", "call graph", "cycle {%s}" % label, why is not None, why or "unrecognised recursion cycle: %s" % owners)
